@@ -1,4 +1,4 @@
-import NfcVerif.Lemmas.IsoDep
+import NfcVerif.Lemmas.IsoDepLive
 /-!
 # C12 - ISO-DEP exchanges each APDU exactly once or reports a tag error
 
@@ -36,7 +36,7 @@ theorem exchange_step (cfg : CardCfg) (F : Nat) (pcd : Pcd) (cmd : Bytes) (w : W
   cases hf : pcd.failed with
   | some e =>
     simp only
-    refine ⟨Or.inl rfl, by intro x hx; cases hx, ?_⟩
+    refine ⟨Or.inl rfl, (by intro x hx; cases hx), ?_⟩
     intro _ hn; rw [hf] at hn; cases hn
   | none =>
     simp only
@@ -56,7 +56,7 @@ theorem exchange_step (cfg : CardCfg) (F : Nat) (pcd : Pcd) (cmd : Bytes) (w : W
             · exact Or.inr h
           simp [h0, this]
       rcases hun with hun | hun <;> rw [hun] <;> simp only <;>
-        exact ⟨Or.inl rfl, by intro x hx; cases hx, fun _ _ => ⟨hp, hsync⟩⟩
+        exact ⟨Or.inl rfl, (by intro x hx; cases hx), fun _ _ => ⟨hp, hsync⟩⟩
     · have hpos : 0 < pcd.miu := by
         by_cases h' : pcd.miu ≤ 0
         · exact absurd (Or.inl h') h
@@ -77,9 +77,9 @@ theorem exchange_step (cfg : CardCfg) (F : Nat) (pcd : Pcd) (cmd : Bytes) (w : W
         simp only at hres hfl ⊢
         obtain ⟨hk, hlog⟩ := hres
         rcases hk with rfl | rfl | rfl | rfl
-        · exact ⟨hlog, by intro x hx; cases hx, fun hne => absurd rfl hne⟩
+        · exact ⟨hlog, (by intro x hx; cases hx), fun hne => absurd rfl hne⟩
         all_goals
-          exact ⟨hlog, by intro x hx; cases hx, fun _ hn => by simp at hn⟩
+          exact ⟨hlog, (by intro x hx; cases hx), fun _ hn => by simp at hn⟩
 
 /-- **At most once.** For every card application, response block size, S(WTX) placement, fuel,
 retry budgets, frame size, command, *every fault script* and every state a session can be in:
@@ -234,9 +234,9 @@ theorem isodep_error_kind {σ : Type} (P : Peer σ) (F : Nat) (pcd : Pcd) (cmd :
   | some e' =>
     simp only
     rcases hfl e' hf with rfl | rfl | rfl
-    · exact ⟨fun e h => by cases h; simp, hfl⟩
-    · exact ⟨fun e h => by cases h; simp, hfl⟩
-    · exact ⟨fun e h => by cases h; simp, hfl⟩
+    · exact ⟨fun e h => (by cases h; simp), hfl⟩
+    · exact ⟨fun e h => (by cases h; simp), hfl⟩
+    · exact ⟨fun e h => (by cases h; simp), hfl⟩
   | none =>
     simp only
     have hk := exchangeCmd_error_kind_any P F pcd cmd w hm hcmd
@@ -246,16 +246,75 @@ theorem isodep_error_kind {σ : Type} (P : Peer σ) (F : Nat) (pcd : Pcd) (cmd :
     simp only at hk hfl'
     have hp1 : FlagOk p1 := by intro e he; rw [hfl', hf] at he; cases he
     cases res with
-    | ok x => exact ⟨fun e h => by cases h, hp1⟩
+    | ok x => exact ⟨fun e h => (by cases h), hp1⟩
     | error e' =>
       rcases hk e' rfl with rfl | rfl | rfl | rfl
-      · exact ⟨fun e h => by cases h; simp, hp1⟩
-      · exact ⟨fun e h => by cases h; simp, fun e he => by simp at he; subst he; simp⟩
-      · exact ⟨fun e h => by cases h; simp, fun e he => by simp at he; subst he; simp⟩
-      · exact ⟨fun e h => by cases h; simp, fun e he => by simp at he; subst he; simp⟩
+      · exact ⟨fun e h => (by cases h; simp), hp1⟩
+      · exact ⟨fun e h => (by cases h; simp), fun e he => by simp at he; subst he; simp⟩
+      · exact ⟨fun e h => (by cases h; simp), fun e he => by simp at he; subst he; simp⟩
+      · exact ⟨fun e h => (by cases h; simp), fun e he => by simp at he; subst he; simp⟩
 
 example : (exchange (isoPeer ⟨2, 1, 0, 0, 3, fun n c => c ++ [n, 0x90, 0]⟩) 20 { pni := 0, miu := 3, nNak := 1, nAck := 1 } [1, 2]
     ⟨Card.init, [.d, .d, .d, .c, .d, .l], []⟩).2.2 = .error (.tagCmd TIMEOUT_ERROR) := by decide
+
+/-- fuel of the model loops that is enough for the ISO card: `W` bounds the S(WTX) requests per block, the retry
+loops run at most `2n+3` times, the response chain has at most as many blocks as the response has octets -/
+def FuelEnough (cfg : CardCfg) (W F : Nat) (pcd : Pcd) (cmd : Bytes) (w : World Card) : Prop :=
+  1 ≤ cfg.chunk ∧ cfg.wtxAck ≤ W ∧ cfg.wtxI ≤ W ∧ cfg.wtxChain ≤ W ∧
+  W + 1 ≤ F ∧ 2 * pcd.nNak + 3 ≤ F ∧ 2 * pcd.nAck + 3 ≤ F ∧ (cfg.app w.card.log.length cmd).length < F
+
+/-- **Termination.** Against the ISO/IEC 14443-4 card every loop of `exchange` ends, for every fault script: the
+`outOfFuel` disjunct of `isodep_error_kind` does not occur once the fuel exceeds the stated bounds (the card
+sends at most `W` S(WTX) requests per block and its response blocks are not empty). -/
+theorem isodep_terminates (cfg : CardCfg) (W F : Nat) (pcd : Pcd) (cmd : Bytes) (w : World Card)
+    (hs : SessInv pcd w.card) (hm : 0 < pcd.miu) (hcmd : cmd ≠ []) (hfuel : FuelEnough cfg W F pcd cmd w) :
+    (exchange (isoPeer cfg) F pcd cmd w).2.2 ≠ .error .outOfFuel := by
+  cases hf : pcd.failed with
+  | some e => rw [isodep_refuses_after_error _ F pcd cmd w e hf]; simp
+  | none =>
+    obtain ⟨hp, hsync⟩ := hs hf
+    obtain ⟨h1, h2, h3, h4, h5, h6, h7, h8⟩ := hfuel
+    rw [(exchange_unfailed _ F pcd cmd w hf).1]
+    exact (exchangeCmd_live cfg W F pcd cmd w pcd.miu.toNat (by omega) (by omega) hcmd hp hsync h1 h2 h3 h4 h5 h6 h7 h8).1
+
+/-- the documented errors only, for the ISO card -/
+theorem isodep_error_kind_iso (cfg : CardCfg) (W F : Nat) (pcd : Pcd) (cmd : Bytes) (w : World Card)
+    (hs : SessInv pcd w.card) (hm : 0 < pcd.miu) (hcmd : cmd ≠ []) (hfl : FlagOk pcd)
+    (hfuel : FuelEnough cfg W F pcd cmd w) (e : Exc) (h : (exchange (isoPeer cfg) F pcd cmd w).2.2 = .error e) :
+    e = .tagCmd TIMEOUT_ERROR ∨ e = .tagCmd RECEIVE_ERROR ∨ e = .tagCmd PROTOCOL_ERROR := by
+  rcases (isodep_error_kind (isoPeer cfg) F pcd cmd w hm hcmd hfl).1 e h with rfl | h' | h' | h'
+  · exact absurd h (isodep_terminates cfg W F pcd cmd w hs hm hcmd hfuel)
+  · exact Or.inl h'
+  · exact Or.inr (Or.inl h')
+  · exact Or.inr (Or.inr h')
+
+/-- **Absorbed faults.** If the fault script (over the whole exchange: all command blocks, S(WTX) exchanges and response
+blocks) contains `k` lost / corrupted / empty blocks with `2k ≤ n_retry + 1` and no reader protocol error, the exchange
+succeeds and returns the card's response.  The bound is exact for the code as written: the retransmission of an I-block
+after R(ACK) advances the retry counter as well, so a fault can cost two counts; `k ≤ n_retry` is *not* enough
+(`isodep_absorbs_bound_tight`). -/
+theorem isodep_absorbs (cfg : CardCfg) (W F : Nat) (pcd : Pcd) (cmd : Bytes) (w : World Card)
+    (hs : SessInv pcd w.card) (hf : pcd.failed = none) (hm : 0 < pcd.miu) (hcmd : cmd ≠ [])
+    (hfuel : FuelEnough cfg W F pcd cmd w) (hnp : Fault.p ∉ w.script)
+    (hk1 : 2 * nfaults w.script ≤ pcd.nNak + 1) (hk2 : 2 * nfaults w.script ≤ pcd.nAck + 1) :
+    (exchange (isoPeer cfg) F pcd cmd w).2.2 = .ok (cfg.app w.card.log.length cmd) := by
+  obtain ⟨hp, hsync⟩ := hs hf
+  obtain ⟨h1, h2, h3, h4, h5, h6, h7, h8⟩ := hfuel
+  have hl := (exchangeCmd_live cfg W F pcd cmd w pcd.miu.toNat (by omega) (by omega) hcmd hp hsync h1 h2 h3 h4 h5 h6 h7 h8).2
+    hnp ⟨hk1, hk2⟩
+  obtain ⟨⟨d, hd⟩, _⟩ := hl
+  rw [← (exchange_unfailed _ F pcd cmd w hf).1] at hd
+  rw [hd, (isodep_response_exact cfg F pcd cmd w hs d hd).1]
+
+/-- 3 faults with the maximal budget 5 (2k-1 = 5): absorbed -/
+example : (exchange (isoPeer ⟨8, 1, 0, 0, 3, fun n c => c ++ [n, 0x90, 0]⟩) 14 { pni := 0, miu := 13, nNak := 5, nAck := 5 }
+    [1, 2] ⟨Card.init, [.l, .d, .d, .l, .d, .d, .d, .c], []⟩).2.2 = .ok [1, 2, 0, 0x90, 0] := by decide
+
+/-- the bound is tight: budget 2, two faults (`2k = 4 > n + 1`): the I-block is lost, R(NAK) is answered by R(ACK), the
+I-block is retransmitted at count 3 and its answer is lost - `Type4TagCommandError` although only two blocks were lost -/
+theorem isodep_absorbs_bound_tight :
+    (exchange (isoPeer ⟨8, 0, 0, 0, 3, fun n c => c ++ [n, 0x90, 0]⟩) 14 { pni := 0, miu := 13, nNak := 2, nAck := 2 }
+      [1, 2] ⟨Card.init, [.l, .d, .d, .d, .l], []⟩).2.2 = .error (.tagCmd TIMEOUT_ERROR) := by decide
 
 /-- **Block bound.** With `miu = FSC - 3` every block handed to the reader during the exchange - I-blocks,
 R(ACK), R(NAK) and S(WTX) responses - is at most `FSC - 2` octets, i.e. fits the card's frame size with
